@@ -261,13 +261,30 @@ func canonLog(line string, keys []string) [2]string {
 // the concurrency check).
 type evalSetup struct {
 	store *realStore
+	ms    *mutableStore // when set, the evaluator's DataProvider is this indirection
 	bs    *realBS
 	log   *captureLogger
 	ev    evaluation.Evaluator
 }
 
+func (s *evalSetup) cur() *realStore {
+	if s.ms != nil {
+		return s.ms.cur
+	}
+	return s.store
+}
+
 func newSetup(opts *WOpts, store *realStore, bs *WBS) *evalSetup {
-	s := &evalSetup{store: store}
+	return newSetupGeneric(opts, store, nil, bs)
+}
+
+// newSetupWithProvider builds an evaluator whose store can be swapped between calls.
+func newSetupWithProvider(opts *WOpts, ms *mutableStore, bs *WBS) *evalSetup {
+	return newSetupGeneric(opts, nil, ms, bs)
+}
+
+func newSetupGeneric(opts *WOpts, store *realStore, ms *mutableStore, bs *WBS) *evalSetup {
+	s := &evalSetup{store: store, ms: ms}
 	var options []evaluation.EvaluatorOption
 	if opts.NilOption {
 		options = append(options, nil)
@@ -284,14 +301,18 @@ func newSetup(opts *WOpts, store *realStore, bs *WBS) *evalSetup {
 		options = append(options, evaluation.EvaluatorOptionErrorLogger(nil))
 	}
 	options = append(options, evaluation.EvaluatorOptionEnableSecondaryKey(opts.Sec))
-	s.ev = evaluation.NewEvaluatorWithOptions(store, options...)
+	if ms != nil {
+		s.ev = evaluation.NewEvaluatorWithOptions(ms, options...)
+	} else {
+		s.ev = evaluation.NewEvaluatorWithOptions(store, options...)
+	}
 	return s
 }
 
 // evalOnce runs one Evaluate call and collects the observation. Side-channel logs of the setup
 // are reset first.
 func (s *evalSetup) evalOnce(flag *ldmodel.FeatureFlag, ctx ldcontext.Context, rec bool, logKeys []string) (obs WObs) {
-	s.store.flagLookups, s.store.segLookups = nil, nil
+	s.cur().flagLookups, s.cur().segLookups = nil, nil
 	if s.bs != nil {
 		s.bs.queries, s.bs.checks = nil, nil
 	}
@@ -305,7 +326,7 @@ func (s *evalSetup) evalOnce(flag *ldmodel.FeatureFlag, ctx ldcontext.Context, r
 			w := WEvent{Target: e.TargetFlagKey, Result: dumpResult(e.PrerequisiteResult), Excl: e.ExcludeFromSummaries}
 			if e.PrerequisiteFlag != nil {
 				w.Prereq, w.Version = e.PrerequisiteFlag.Key, e.PrerequisiteFlag.Version
-				if s.store.flags[e.PrerequisiteFlag.Key] != e.PrerequisiteFlag {
+				if s.cur().flags[e.PrerequisiteFlag.Key] != e.PrerequisiteFlag {
 					obs.EventsOK = false
 				}
 			} else {
@@ -322,8 +343,8 @@ func (s *evalSetup) evalOnce(flag *ldmodel.FeatureFlag, ctx ldcontext.Context, r
 			obs.Outcome = "panic"
 			obs.Panic = fmt.Sprint(r)
 		}
-		obs.FlagLookups = nonNilStrs(s.store.flagLookups)
-		obs.SegLookups = nonNilStrs(s.store.segLookups)
+		obs.FlagLookups = nonNilStrs(s.cur().flagLookups)
+		obs.SegLookups = nonNilStrs(s.cur().segLookups)
 		obs.BSQueries, obs.MemChecks = []string{}, [][2]string{}
 		if s.bs != nil {
 			obs.BSQueries = nonNilStrs(s.bs.queries)
